@@ -12,6 +12,9 @@ def quiet(fn, *a):
     return r, out.getvalue(), err.getvalue()
 
 
+fingerprint = extract.fingerprint
+
+
 def c16(cx):
     from tealer.teal.instructions.parse_instruction import parse_line
     from tealer.teal.parse_teal import parse_teal
@@ -50,7 +53,7 @@ def c16(cx):
             continue   # known deviation F19
         try:
             again, _, _ = quiet(parse_line, str(base))
-            ok = again is not None and type(again) is type(base) and str(again) == str(base)
+            ok = again is not None and type(again) is type(base) and str(again) == str(base) and fingerprint(again) == fingerprint(base)
         except BaseException:
             ok = False
         stats['roundtrips'] += 1
@@ -78,7 +81,7 @@ def c16(cx):
         if not w or w[0] in ('int', 'pushint') or w[0].endswith(':') or w[0].startswith('#'): continue
         for k in range(1, len(w)):
             if not re.fullmatch(r'\d+', w[k]) or (len(w[k]) > 1 and w[k].startswith('0')): continue
-            for n in dict.fromkeys([int(w[k]), 8, 10, 15]):
+            for n in dict.fromkeys([int(w[k]), 0, 1, 2, 8, 10, 15, 255]):
                 dec = ' '.join(w[:k] + [str(n)] + w[k + 1:])
                 try:
                     base, _, _ = quiet(parse_line, dec)
@@ -86,6 +89,16 @@ def c16(cx):
                     continue
                 if base is None or type(base).__name__ == 'UnsupportedInstruction': continue
                 want = (type(base).__name__, str(base))
+                # the printed form of this immediate value parses back to an identical instruction (class and immediates)
+                stats['roundtrips'] += 1
+                try:
+                    again, _, _ = quiet(parse_line, str(base))
+                    ok = again is not None and fingerprint(again) == fingerprint(base)
+                except BaseException:
+                    ok = False
+                if not ok:
+                    cx.violations.append({'kind': 'roundtrip', 'program': dec, 'prop': 'C16', 'field': 'print', 'where': dec,
+                                          'detail': f"{dec!r} prints as {str(base)!r}, which does not parse back to an identical instruction", 'src': dec, 'env': None})
                 for form in (hex(n), ('0' + oct(n)[2:]) if n else '0'):
                     v = ' '.join(w[:k] + [form] + w[k + 1:])
                     stats['immediate_spellings'] += 1
